@@ -186,6 +186,11 @@ class Point:
         # rmul calculates coefficient * self
         coef = coefficient
         current = self
+        # a negative coefficient multiplies the negated point: -k * (x, y) = k * (x, -y)
+        if coef < 0:
+            coef = -coef
+            if self.x is not None:
+                current = self.__class__(self.x, -1 * self.y, self.a, self.b)
         # start at 0
         result = self.__class__(None, None, self.a, self.b)
         while coef:
